@@ -522,7 +522,9 @@ func check(verifDir, repo, id, tier, replay string) int {
 			isoNeeded = true
 		}
 	}
-	if isoNeeded && len(viols) == 0 && meta.Pkg != "pam" {
+	isoRan := false
+	runIsolation := func() {
+		isoRan = true
 		isoRuns := 150
 		if v, err := strconv.Atoi(os.Getenv("VERIF_ISO_RUNS")); err == nil && v > 0 {
 			isoRuns = v
@@ -628,14 +630,10 @@ func check(verifDir, repo, id, tier, replay string) int {
 			cannot = nil
 		}
 	}
+	if isoNeeded && len(viols) == 0 && meta.Pkg != "pam" {
+		runIsolation()
+	}
 
-	// dedupe violations by signature, confirm each by replay in a fresh process
-	sort.Slice(viols, func(i, j int) bool {
-		if viols[i].Sig != viols[j].Sig {
-			return viols[i].Sig < viols[j].Sig
-		}
-		return len(viols[i].Tape) < len(viols[j].Tape)
-	})
 	seen := map[string]bool{}
 	exit := 0
 	nviol := 0
@@ -646,44 +644,68 @@ func check(verifDir, repo, id, tier, replay string) int {
 	}
 	os.MkdirAll(replayDir, 0o755)
 	var reported []map[string]any
-	for _, v := range viols {
-		if seen[v.Sig] {
-			continue
-		}
-		seen[v.Sig] = true
-		if strings.HasPrefix(v.Sig, "harness/") {
-			cannot = append(cannot, v.Sig+": "+v.Msg)
-			continue
-		}
-		h := sha256.Sum256([]byte(v.Sig))
-		rp := filepath.Join(replayDir, fmt.Sprintf("%s-%s-%d.json", id, hex.EncodeToString(h[:4]), v.Seed))
-		rf := replayFile{Prop: id, Sig: v.Sig, Msg: v.Msg, Seed: v.Seed, Tier: tier, Tape: v.Tape, Decisions: v.Decisions, Log: v.Log, LogHash: v.LogHash, OrigLen: v.OrigLen, Pkg: v.Tier, SeedOnly: v.LogHash == "crash" || v.LogHash == "hang"}
-		b, _ := json.MarshalIndent(rf, "", " ")
-		os.WriteFile(rp, b, 0o644)
-		if v.LogHash == "hang" {
-			// confirmation: the same seed, alone in a fresh process, hangs again at the same place
-			if fn := replayHang(bins[v.Tier], scratch, id, rp, meta, repo); "hang/blocked-in-"+fn != v.Sig {
-				cannot = append(cannot, fmt.Sprintf("replay of %s did not hang again (got %q)", rp, fn))
+	unreproduced := 0
+	confirmAll := func() {
+		// dedupe violations by signature, confirm each by replay in a fresh process
+		sort.Slice(viols, func(i, j int) bool {
+			if viols[i].Sig != viols[j].Sig {
+				return viols[i].Sig < viols[j].Sig
+			}
+			return len(viols[i].Tape) < len(viols[j].Tape)
+		})
+		for _, v := range viols {
+			if seen[v.Sig] {
 				continue
 			}
-		} else if v.LogHash != "crash" {
-			// fresh-process confirmation
-			rl, out, err := runReplay(bins[v.Tier], scratch, id, rp, knownSigs, meta)
-			if err != nil || rl == nil {
-				cannot = append(cannot, fmt.Sprintf("replay of %s could not run: %v\n%s", rp, err, out))
+			seen[v.Sig] = true
+			if strings.HasPrefix(v.Sig, "harness/") {
+				cannot = append(cannot, v.Sig+": "+v.Msg)
 				continue
 			}
-			if rl.Sig != v.Sig || rl.LogHash != v.LogHash {
-				cannot = append(cannot, fmt.Sprintf("replay of %s did not reproduce (got sig=%q hash=%s, want sig=%q hash=%s): harness nondeterminism", rp, rl.Sig, rl.LogHash, v.Sig, v.LogHash))
-				continue
+			h := sha256.Sum256([]byte(v.Sig))
+			rp := filepath.Join(replayDir, fmt.Sprintf("%s-%s-%d.json", id, hex.EncodeToString(h[:4]), v.Seed))
+			rf := replayFile{Prop: id, Sig: v.Sig, Msg: v.Msg, Seed: v.Seed, Tier: tier, Tape: v.Tape, Decisions: v.Decisions, Log: v.Log, LogHash: v.LogHash, OrigLen: v.OrigLen, Pkg: v.Tier, SeedOnly: v.LogHash == "crash" || v.LogHash == "hang"}
+			b, _ := json.MarshalIndent(rf, "", " ")
+			os.WriteFile(rp, b, 0o644)
+			if v.LogHash == "hang" {
+				// confirmation: the same seed, alone in a fresh process, hangs again at the same place
+				if fn := replayHang(bins[v.Tier], scratch, id, rp, meta, repo); "hang/blocked-in-"+fn != v.Sig {
+					cannot = append(cannot, fmt.Sprintf("replay of %s did not hang again (got %q)", rp, fn))
+					continue
+				}
+			} else if v.LogHash != "crash" {
+				// fresh-process confirmation
+				rl, out, err := runReplay(bins[v.Tier], scratch, id, rp, knownSigs, meta)
+				if err != nil || rl == nil {
+					cannot = append(cannot, fmt.Sprintf("replay of %s could not run: %v\n%s", rp, err, out))
+					continue
+				}
+				if rl.Sig != v.Sig || rl.LogHash != v.LogHash {
+					cannot = append(cannot, fmt.Sprintf("replay of %s did not reproduce (got sig=%q hash=%s, want sig=%q hash=%s): harness nondeterminism", rp, rl.Sig, rl.LogHash, v.Sig, v.LogHash))
+					unreproduced++
+					continue
+				}
 			}
+			nviol++
+			exit = 1
+			fmt.Printf("VIOLATION property=%s replay=%s\n", id, rp)
+			fmt.Printf("  signature: %s\n  seed: %d  minimised tape: %d decisions (from %d)\n  %s\n", v.Sig, v.Seed, len(v.Tape), v.OrigLen, firstLines(v.Msg, 12))
+			reported = append(reported, map[string]any{"signature": v.Sig, "seed": v.Seed, "replay": rp})
 		}
-		nviol++
-		exit = 1
-		fmt.Printf("VIOLATION property=%s replay=%s\n", id, rp)
-		fmt.Printf("  signature: %s\n  seed: %d  minimised tape: %d decisions (from %d)\n  %s\n", v.Sig, v.Seed, len(v.Tape), v.OrigLen, firstLines(v.Msg, 12))
-		reported = append(reported, map[string]any{"signature": v.Sig, "seed": v.Seed, "replay": rp})
 	}
+	confirmAll()
+	if unreproduced > 0 && nviol == 0 && !isoRan && meta.Pkg != "pam" {
+		// what the shared workers found did not reproduce in a fresh process: typically state of the
+		// changed tree that had built up over earlier runs of that worker. One process per run decides.
+		viols = nil
+		seen = map[string]bool{}
+		runIsolation()
+		if len(viols) > 0 {
+			cannot = nil
+		}
+		confirmAll()
+	}
+
 	// known findings of this property
 	var knownOut []map[string]any
 	for _, f := range findings {
@@ -728,7 +750,7 @@ func check(verifDir, repo, id, tier, replay string) int {
 		writeEvidence(verifDir, id, tier, seed, meta, agg, len(distinct), nviol, reported, knownOut, foreign, wall, nworkers, genInfo, exit)
 	}
 	if false {
-	writeEvidence(verifDir, id, tier, seed, meta, agg, len(distinct), nviol, reported, knownOut, foreign, wall, nworkers, genInfo, exit)
+		writeEvidence(verifDir, id, tier, seed, meta, agg, len(distinct), nviol, reported, knownOut, foreign, wall, nworkers, genInfo, exit)
 	}
 	fmt.Printf("%s %s: runs=%d steps=%d distinct_nontrivial=%d violations=%d wall=%.1fs exit=%d\n", id, tier, agg.Runs, agg.Steps, len(distinct), nviol, wall, exit)
 	return exit
@@ -986,25 +1008,25 @@ func writeEvidence(verifDir, id, tier string, seed uint64, meta propInfo, agg re
 		samples = []any{"(no run completed)"}
 	}
 	cov := map[string]any{
-		"evaluations":            evals,
-		"distinct_nontrivial":    distinct,
-		"rule":                   meta.Rule,
-		"samples":                samples,
-		"simulated_runs":         agg.Runs,
-		"runs_per_hour":          int(float64(agg.Runs) / wall * 3600),
-		"steps":                  agg.Steps,
-		"simulated_time_s":       float64(agg.SimTimeNs) / 1e9,
-		"fault_kinds_fired":      faults,
-		"reach_probes":           probes,
-		"counters":               counters,
-		"workers":                nworkers,
-		"components_real":        meta.Real,
-		"components_stub":        meta.Stub,
-		"violations_reported":    reported,
-		"known_findings":         known,
-		"other_properties_seen":  foreign,
-		"exit_status":            exit,
-		"exhaustive":             false,
+		"evaluations":           evals,
+		"distinct_nontrivial":   distinct,
+		"rule":                  meta.Rule,
+		"samples":               samples,
+		"simulated_runs":        agg.Runs,
+		"runs_per_hour":         int(float64(agg.Runs) / wall * 3600),
+		"steps":                 agg.Steps,
+		"simulated_time_s":      float64(agg.SimTimeNs) / 1e9,
+		"fault_kinds_fired":     faults,
+		"reach_probes":          probes,
+		"counters":              counters,
+		"workers":               nworkers,
+		"components_real":       meta.Real,
+		"components_stub":       meta.Stub,
+		"violations_reported":   reported,
+		"known_findings":        known,
+		"other_properties_seen": foreign,
+		"exit_status":           exit,
+		"exhaustive":            false,
 	}
 	if g != nil {
 		cov["select_rewrites"] = g.Selects
